@@ -20,7 +20,7 @@ from .world import World, Session, Running
 class Rig:
     def __init__(self, chooser=None, backend="memory", delay=0.0, delay_ops=None, tree=None, users=None,
                  n_sessions=1, window=65536, server_kwargs=None, spy=None, mtime=None, advance=None,
-                 base="/", epoch0=None, max_iterations=200000):
+                 base="/", epoch0=None, max_iterations=200000, host="127.0.0.1"):
         kw = {} if epoch0 is None else {"epoch0": epoch0}
         self.world = World(chooser=chooser, window=window, max_iterations=max_iterations, **kw)
         a = self.world.aioftp
@@ -53,8 +53,9 @@ class Rig:
         elif self.tmp is None and str(self.base) != "/":
             backends.populate_memory(self.server, {}, base=str(self.base))
         self.spy.armed = True
-        self.world.start_server(self.server)
-        self.sessions = [Session(self.world, name=f"p{i}", advance=advance) for i in range(n_sessions)]
+        self.world.start_server(self.server, host=host)
+        self.host = host
+        self.sessions = [Session(self.world, name=f"p{i}", advance=advance, host=host) for i in range(n_sessions)]
         self.advance = advance
 
     def snapshot(self):
@@ -76,13 +77,13 @@ class Rig:
                 s.transcript.append(("<late>", late))
                 self._track_passive(s, late)
         if e == "@connect":
-            s.ctl = s.peer.connect(s.port)
+            s.ctl = s.peer.connect(s.port, s.host)
         elif e == "@data":
             if s.pasv_port is None:
                 return None
             try:
                 with Running(w.loop):
-                    s.data = s.peer.connect(s.pasv_port)
+                    s.data = s.peer.connect(s.pasv_port, s.host)
             except ConnectionRefusedError:
                 s.data = None
         elif e.startswith("@dsend "):
